@@ -696,6 +696,14 @@ impl<'a> Gen<'a> {
             for i in 0..len {
                 s.push((b'a' + ((i * 7 + len) % 26) as u8) as char);
             }
+            if self.r.chance(1, 2) {
+                // an indicator / multi-byte character INSIDE the word, at an offset around a capacity
+                // or near the end, followed by ordinary characters
+                let special = *self.r.pick(&[":", "#", ",", "-", "?", "!", "&", "*", "'", "\"", "%", "@", "`", "|", ">", "\u{e9}", "\u{4e2d}", "::", ":#", "#:"]);
+                let targets = [len.saturating_sub(1), len.saturating_sub(2), len / 2, 7, 8, 15, 16, 17, 63, 64, 126, 127, 128, 129, 254, 255, 256];
+                let at = (*self.r.pick(&targets)).min(len);
+                s.insert_str(at, special);
+            }
             return s;
         }
         if self.r.chance(1, 25) {
@@ -1247,7 +1255,7 @@ pub fn decoder_text(g: &mut Gen<'_>) -> (&'static str, String) {
                 match g.r.below(6) {
                     0 => s.push(*g.r.pick(&['a', ' ', ':', '-', '\n'])),
                     1 => s.push(*g.r.pick(&['é', 'ß', 'ü', 'Ω'])),
-                    2 | 3 => s.push(*g.r.pick(&['中', '日', '本', '語', '€'])),
+                    2 | 3 => s.push(*g.r.pick(&['中', '日', '本', '語', '€', '\u{FFFD}', '\u{FEFF}'])),
                     _ => s.push(*g.r.pick(&['😀', '𝄞', '𐍈'])),
                 }
             }
@@ -1260,7 +1268,7 @@ pub fn decoder_text(g: &mut Gen<'_>) -> (&'static str, String) {
             let dens = 1 + g.r.below(10);
             for i in 0..n {
                 if g.r.below(10) < dens {
-                    s.push(*g.r.pick(&['é', '中', '語', '😀', 'ß', '€']));
+                    s.push(*g.r.pick(&['é', '中', '語', '😀', 'ß', '€', '\u{FFFD}']));
                 } else if i % 61 == 60 {
                     s.push_str("\nk: ");
                 } else {
